@@ -453,6 +453,27 @@ var wfConstructs = []wfConstruct{
 	nested := struct{ a [2]T; p *T }{p: tp}
 	nested.a[1].f = X
 	X += ts[0].g + tp.g + mp["a"].f + ar[2] + nested.a[1].f + nested.p.g`},
+	{Name: "split-alloc-in-branch", Body: `y := a
+	p := &y
+	if c(0) {
+		z := X
+		r += z
+		p = &z
+		r += z
+	}
+	*p += 1
+	for c(1) {
+		w := X
+		r += w
+		if c(2) { p = &w } else { w++ }
+		r += w + *p
+	}
+	if c(3) {
+		u := X
+		r += u
+		if c(4) { sink(&u) }
+		r += u
+	}`},
 	{Name: "goto-loop", Body: `i := 0
 	if c(0) { goto second }
 first:
